@@ -23,21 +23,21 @@ def ids(args):
     return args
 
 
-def collect():
+def collect(root="/tmp/seed", suffix=""):
     os.makedirs(SEEDED, exist_ok=True)
-    for p in sorted(os.listdir("/tmp/seed")):
-        sd = os.path.join("/tmp/seed", p, "SEED")
+    for p in sorted(os.listdir(root)):
+        sd = os.path.join(root, p, "SEED")
         if not os.path.isdir(sd):
             continue
         for n in sorted(os.listdir(sd)):
             src = os.path.join(sd, n)
             if not os.path.exists(os.path.join(src, "patch.diff")):
                 continue
-            dst = os.path.join(SEEDED, "%s-%s" % (p, n))
+            dst = os.path.join(SEEDED, "%s-%s%s" % (p, suffix, n))
             if os.path.exists(dst):
                 continue
             shutil.copytree(src, dst, ignore=shutil.ignore_patterns("*.o", "*.a", "a.out"))
-            meta = {"id": "%s-%s" % (p, n), "property": p, "origin": "independent sub-agent given only the property text and a scratch worktree",
+            meta = {"id": "%s-%s%s" % (p, suffix, n), "property": p, "origin": "independent sub-agent given only the property text and a scratch worktree",
                     "needs_to_manifest": "see notes.md", "validated": None, "detected_by": {}}
             json.dump(meta, open(os.path.join(dst, "meta.json"), "w"), indent=1)
             print("collected", dst)
@@ -137,7 +137,7 @@ def main():
     if "--checks" in args:
         k = args.index("--checks"); checks = args[k + 1].split(","); del args[k:k + 2]
     if cmd == "collect":
-        collect()
+        collect(*args)
     elif cmd == "validate":
         with ThreadPoolExecutor(4) as ex:
             list(ex.map(validate, ids(args)))
